@@ -188,3 +188,9 @@ Proof. vm_compute; reflexivity. Qed.
 (* the locking discipline: no field is in an unprotected conflict between the sync loop and the API *)
 Lemma shared_fields_conflicts : check_conflicting_fields = true.
 Proof. vm_compute; reflexivity. Qed.
+
+(* ------------------------------------------------------------------ C02: durability settings *)
+Lemma journal_on_disk : check_journal_on_disk = true.
+Proof. vm_compute; reflexivity. Qed.
+Lemma synchronous_on : check_synchronous_on = true.
+Proof. vm_compute; reflexivity. Qed.
